@@ -1,7 +1,7 @@
 #!/bin/sh
 # usage: harness/mkmutantspace.sh <id>  -> /tmp/m/<id>/repo : scratch worktree of /repo for a seeded-change author (nothing from /verif)
 set -e
-n="$1"; base=/tmp/m/$n
+n="$1"; base=${MBASE:-/tmp/m}/$n
 mkdir -p "$base/out"
 git -C /repo worktree add -q --detach "$base/repo" HEAD
 cp /repo/src/psd_tools/compression/_rle*.so "$base/repo/src/psd_tools/compression/" 2>/dev/null || true
